@@ -66,7 +66,7 @@ func evmWeights() map[string]int {
 
 func checkC01(c *Ctx) {
 	c.rule = "each generated history (all eight transaction types incl. contracts, valid and invalid, absentee/evidence patterns) is executed on a primary replica and replayed on twin replicas that differ in process, data directory, start time (>2s later), TZ, GOMAXPROCS, GOGC and build flavour (-race); per-call comparison of DeliverTx code/data/gas, validator updates, app hash, Info; distinct = distinct final app hash"
-	n := c.N(12, 400)
+	n := c.N(24, 400)
 	type prim struct {
 		hr *HistRun
 		o  *HistOpts
@@ -431,7 +431,7 @@ func checkC05(c *Ctx) {
 
 func checkC07(c *Ctx) {
 	c.rule = "restart twin: a continuous replica and a replica that is stopped (graceful Stop, process exit) and restarted from its data directory at chosen block boundaries execute the same history; Info after each restart and every later consensus response / app hash must be equal; modes: one restart at each single boundary, restarts at every boundary, random subsets; distinct = distinct (history, restart set)"
-	n := c.N(10, 150)
+	n := c.N(20, 150)
 	c.Parallel(n, 0, func(i int) {
 		rng := c.Rng("c07", i)
 		o := twinOpts(c, "C07", i)
